@@ -435,6 +435,23 @@ def bounded_native(ck):
                 break
         if fails:
             break
+    # (a') brackets of every width down to a few ulp: a genuine bracket, however narrow, is interpolated linearly (it is not a plateau)
+    for width in (1e-6, 1e-8, 3e-9, 1e-10, 1e-13):
+        row = np.array([0.0, 0.2, 0.2 + width, 0.7, 1.0])
+        ys = np.array([0.0, 0.1, 0.55, 0.8, 1.0])
+        qs = np.array([0.2 + 0.25 * width, 0.2 + 0.5 * width, 0.2 + 0.75 * width])
+        qs = qs[(qs > row[1]) & (qs < row[2])]
+        if not len(qs):
+            continue
+        try:
+            got = vec_1d_interp(np.tile(row, (len(qs), 1)), ys.copy(), qs.copy())
+            want = ys[1] + (qs - row[1]) * ((ys[2] - ys[1]) / (row[2] - row[1]))
+            n += len(qs)
+            if not np.allclose(got, want, rtol=1e-9, atol=0):
+                fails.append({"obligation": "bounded.vec_1d_interp", "clause": "a narrow but genuine bracket (two distinct neighbouring values) is interpolated linearly, not snapped to a node",
+                              "input": {"row": [repr(float(x)) for x in row], "ys": ys.tolist(), "queries": [repr(float(q)) for q in qs], "bracket width": width}, "observed": {"code": got.tolist(), "spec": want.tolist()}})
+        except Exception as ex:
+            fails.append({"obligation": "bounded.vec_1d_interp", "clause": "a narrow bracket is evaluated", "input": {"bracket width": width}, "observed": "raised %r" % ex})
     # (b) the real sampler on the shipped tables: own energy/angle/u per event, chunking, mixed batches
     for ver in VERSIONS:
         nt = NativeTables(ver)
@@ -490,6 +507,24 @@ def bounded_native(ck):
         except Exception as ex:
             fails.append({"obligation": "bounded.tau_energy", "clause": "explicit random numbers with a mix of in-range and out-of-range angles", "input": {"version": ver, "beta": beta.tolist(), "log_e_nu": logE.tolist(), "u": u.tolist()},
                           "observed": "raised %r" % ex})
+        # the low tail of the distribution at every angle node of the highest energies: small random numbers reach the first populated bins
+        ee_, bb_ = np.meshgrid(nt.ax0[-3:], nt.ax1, indexing="ij")
+        ee_, bb_ = ee_.ravel(), np.clip(bb_.ravel(), nt.beta_min, nt.beta_max)
+        for usmall in (1e-5, 1e-4, 1e-3, 2.9e-3, 0.02):
+            uu_ = np.full(ee_.shape, usmall)
+            n += len(ee_)
+            try:
+                got = np.asarray(t.tau_energy(bb_.copy(), ee_.copy(), uu_.copy()), dtype=float)
+                want = np.asarray(spec_tau_energy({"tables": nt, "beta": bb_, "logE": ee_, "u": uu_}), dtype=float)
+                badm = ~np.isclose(got, want, rtol=1e-9, atol=0)
+                if badm.any():
+                    i = int(np.argmax(badm))
+                    fails.append({"obligation": "bounded.tau_energy", "clause": "the sampled energy is the inverse-CDF value for the event's own random number, also in the lowest populated bins of the table (small u at the highest energies)",
+                                  "input": {"version": ver, "beta": float(bb_[i]), "log_e_nu": float(ee_[i]), "u": usmall, "events that differ": int(badm.sum())}, "observed": {"code": float(got[i]), "spec": float(want[i])}})
+                    break
+            except Exception as ex:
+                fails.append({"obligation": "bounded.tau_energy", "clause": "the low tail at the highest energies is evaluated", "input": {"version": ver, "u": usmall}, "observed": "raised %r" % ex})
+                break
         # batches without a single in-range angle: below-minimum angles still take the minimum-angle distribution, above-maximum ones the floor
         for bset in ([0.0005, 0.001, 0.0017], [0.0005, 1.3], [0.0009]):
             bset = np.array([x if x < 1.0 else float(np.nextafter(nt.beta_max, 9)) for x in bset])
